@@ -191,7 +191,8 @@ def doProbe (l : Line) : Option String := do
   let js := xs.map (nearestIndex c n)
   some s!"ok i={showNatList is} nd={showRatList nds} j={showNatList js}"
 
-/-- Axis spec `u:lo:hi:n` (an axis of `uniform_discr(lo, hi, n)`: the model computes the nodes)
+/-- Axis spec `u:lo:hi:n` (an axis of `uniform_discr(lo, hi, n)`: the model computes the nodes),
+`b:lo:hi:n:bl:br` (the same with `nodes_on_bdry=(bl, br)`)
 or `c:x0,x1,…` (explicit coordinate vector of a non-uniform partition). -/
 def parseAxisSpec (s : String) (sch : Scheme) : Option (Axis Rat) :=
   match s.splitOn ":" with
@@ -200,6 +201,13 @@ def parseAxisSpec (s : String) (sch : Scheme) : Option (Axis Rat) :=
       let hi ← parseRat hi
       let n ← n.toNat?
       if n = 0 then none else some (uniformAxis lo hi n sch)
+  | ["b", lo, hi, n, bl, br] => do
+      let lo ← parseRat lo
+      let hi ← parseRat hi
+      let n ← n.toNat?
+      let bl ← match bl with | "1" => some true | "0" => some false | _ => none
+      let br ← match br with | "1" => some true | "0" => some false | _ => none
+      if n = 0 then none else some (uniformAxisBdry bl br lo hi n sch)
   | ["c", cs] => do
       let cv ← parseRatList cs
       if cv.isEmpty then none
@@ -212,13 +220,19 @@ def parseAxisSpecs (s : String) (schemes : List Scheme) : Option (List (Axis Rat
   if toks.length ≠ schemes.length then none
   else (List.zip toks schemes).mapM fun (t, sc) => parseAxisSpec t sc
 
-/-- `grid lo=… hi=… n=…` answers `ok c=…`: the nodes of `uniform_discr(lo, hi, n)`. -/
+/-- `grid lo=… hi=… n=… [bl=0|1 br=0|1]` answers `ok c=…`: the nodes of `uniform_discr(lo, hi, n)`
+(with `nodes_on_bdry=(bl, br)` when the flags are given). -/
 def doGrid (l : Line) : Option String := do
   let lo ← l.rat? "lo"
   let hi ← l.rat? "hi"
   let n ← l.nat? "n"
   if n = 0 then none
-  some s!"ok c={showRatList (uniformAxis lo hi n .linear).nodes}"
+  match l.get? "bl", l.get? "br" with
+  | none, none => some s!"ok c={showRatList (uniformAxis lo hi n .linear).nodes}"
+  | _, _ =>
+    let bl ← l.bool? "bl"
+    let br ← l.bool? "br"
+    some s!"ok c={showRatList (uniformAxisBdry bl br lo hi n .linear).nodes}"
 
 /-- The value array of an operator case: `v` flat in C order over the DOMAIN axes. -/
 def opValues (l : Line) (axes : List (Axis Rat)) : Option (List Nat → CRat) := do
